@@ -100,6 +100,12 @@ def run(res, ctx):
         st["A-%s B-%s" % (ia_["status"], ib_["status"])] += 1
         if "panic" in (ia_["status"], ib_["status"], ii_["status"]):
             continue        # a panic takes the process down: C05's subject
+        if ia_["status"] == "ok" and ii_["status"] == "err" and ib_["status"] in ("ok", "err"):
+            # every generated row parses, so nothing in B can be a file-level error: whatever is wrong with
+            # B's securities must be reported against them, not end the run for A's securities too
+            res.violation("failing-input", "input A runs, but with the rows of other securities added the whole run ends with: %s" % str(ii_.get("msg"))[:200],
+                          {"input_A": x["hc"], "input_B": y["hc"], "input_interleaved": z["hc"]})
+            continue
         if ia_["status"] == "ok" and ib_["status"] == "ok":
             if ii_["status"] != "ok":
                 res.violation("failing-input", "A and B each run, but their interleaving ends with %s" % ii_.get("msg"),
